@@ -389,7 +389,7 @@ func taMutate(r *rng, text string, s *sink) string {
 		}
 		li := r.intn(len(lines))
 		l := lines[li]
-		kind := r.intn(14)
+		kind := r.intn(16)
 		s.count(fmt.Sprintf("mut.kind.%d", kind))
 		switch kind {
 		case 0: // delete a field
@@ -447,6 +447,19 @@ func taMutate(r *rng, text string, s *sink) string {
 			lines = append(lines[:li+1], lines[li:]...)
 		case 12: // delete the line
 			lines = append(lines[:li], lines[li+1:]...)
+		case 14: // one more, empty field at the end of the line (a trailing comma), or in front
+			if r.chance(3, 4) {
+				lines[li] = l + ","
+			} else {
+				lines[li] = "," + l
+			}
+		case 15: // the header line once more, further down (two logs glued together)
+			for _, h := range lines {
+				if strings.HasPrefix(h, "Time,") || strings.HasPrefix(h, `"Time"`) {
+					lines = append(lines[:li+1], append([]string{h}, lines[li+1:]...)...)
+					break
+				}
+			}
 		default: // swap two characters
 			if len(l) > 1 {
 				bs := []byte(l)
